@@ -29,6 +29,7 @@ RULE += " Unit part also: null timestamps (pd.NaT) as entry dates; the dict Sing
 RULE += ' Unit part also: entry instants converted to second / millisecond / nanosecond resolution or rebuilt from a date.'
 RULE += ' 30% of the unit probes re-assign StaticUniverse.asset_list and FixedSignalsAlphaModel.signal_weights after first use and expect the new values.'
 RULE += ' Round 11: for every member with an entry date, the first scheduled rebalance at or after the entry (burn-in inclusive) ran and its target allocation carries the asset.'
+RULE += ' Round 12: a quarter of the single-signal sessions use a signal of 1e-9 (a tiny but genuine weight: recorded as given).'
 ASSUMPTIONS = ['UTC timestamps']
 
 
